@@ -572,6 +572,7 @@ void buildUniverse() {
 
 int main(int argc, char **argv) {
     rt::init(argc, argv);
+    rt::cpuBudgetPerCase(240);   // single-threaded, deterministic: a case that burns 240 s of CPU time does not terminate
     bool structural = rt::st().prop == "C13";
     gProp = structural ? "C13" : "C06";
     for (auto &s : kRegexSrc) gRegex.emplace_back(s);
